@@ -50,6 +50,11 @@ pub struct Case {
     pub size: u64,
     pub carrier: Carrier,
     pub chunked: bool,
+    /// how the limit reaches the configuration: 0 = field set directly, 1 = `--max-object-size N` on
+    /// the command line, 2 = `max-object-size = N` in the config file (N = 0 disables), both read by
+    /// routinator's own parsers
+    #[serde(default)]
+    pub via: u8,
 }
 
 fn body(size: u64) -> Vec<u8> {
@@ -78,10 +83,15 @@ fn key(c: &Case, what: &str) -> String {
         Some(_) => "above".into(),
     };
     let enc = if c.carrier == Carrier::RsyncReal { "n/a" } else if c.chunked { "chunked" } else { "content-length" };
-    if c.limit.is_none() && c.carrier == Carrier::TaHttps && !c.chunked && what == "refused" {
+    if c.via == 0 && c.limit.is_none() && c.carrier == Carrier::TaHttps && !c.chunked && what == "refused" {
         return KEY_TA_CL.to_string();
     }
-    format!("C38/limit={}/size={}/carrier={}/enc={}/{}", limit_name(c.limit), rel, c.carrier.name(), enc, what)
+    let via = match c.via {
+        1 => "/via=command-line",
+        2 => "/via=config-file",
+        _ => "",
+    };
+    format!("C38/limit={}/size={}/carrier={}/enc={}/{}{}", limit_name(c.limit), rel, c.carrier.name(), enc, what, via)
 }
 
 /// Writes the wrapper that turns routinator's rsync invocation into a local-path copy by the real rsync.
@@ -106,6 +116,16 @@ fn prop(c: &Case, info: &mut CaseInfo) -> Verdict {
     let srv = HttpsServer::start();
     let mut config = client_config(dir.path(), &srv);
     config.max_object_size = c.limit;
+    if c.via != 0 {
+        let env = crate::hist::Env::new(tempfile::Builder::new().prefix("c38-conf-").tempdir_in(scratch_base()).expect("tmp"));
+        let n = c.limit.unwrap_or(0);
+        let parsed = if c.via == 1 { env.config(&[], &["--max-object-size".into(), n.to_string()]) } else { env.config(&[format!("max-object-size = {}", n)], &[]) };
+        match parsed {
+            Ok(p) => config.max_object_size = p.max_object_size,
+            Err(e) => return Verdict::fail(format!("C38/limit-not-accepted/via={}", c.via), format!("max-object-size {} rejected by the option parser: {}", n, e)),
+        }
+        info.class(if c.via == 1 { "limit-via:command-line" } else { "limit-via:config-file" });
+    }
     let data = body(c.size);
     let should_use = match c.limit {
         None => true,
@@ -279,10 +299,23 @@ fn cells(big: u64) -> Vec<Case> {
                     if carrier == Carrier::RsyncReal && chunked {
                         continue;
                     }
-                    res.insert(Case { limit, size, carrier, chunked });
+                    res.insert(Case { limit, size, carrier, chunked, via: 0 });
                 }
             }
         }
+    }
+    // the limit as it comes out of routinator's option parsers; "disabled" is only observable with an
+    // object above the default limit of 20 000 000 bytes
+    for via in [1u8, 2] {
+        for chunked in [false, true] {
+            res.insert(Case { limit: None, size: 20_000_001, carrier: Carrier::TaHttps, chunked, via });
+            res.insert(Case { limit: None, size: 1001, carrier: Carrier::TaHttps, chunked, via });
+            res.insert(Case { limit: Some(1000), size: 1000, carrier: Carrier::TaHttps, chunked, via });
+            res.insert(Case { limit: Some(1000), size: 1001, carrier: Carrier::TaHttps, chunked, via });
+        }
+        res.insert(Case { limit: Some(1000), size: 1000, carrier: Carrier::Snapshot, chunked: false, via });
+        res.insert(Case { limit: Some(1000), size: 1001, carrier: Carrier::Snapshot, chunked: false, via });
+        res.insert(Case { limit: Some(1000), size: 1001, carrier: Carrier::RsyncReal, chunked: false, via });
     }
     res.into_iter().collect()
 }
@@ -294,7 +327,7 @@ fn random_case() -> impl Strategy<Value = Case> {
             (Some(l), 1) => l * 2 + off as u64,
             _ => free,
         };
-        Case { limit, size, carrier, chunked }
+        Case { limit, size, carrier, chunked, via: 0 }
     })
 }
 
@@ -318,7 +351,7 @@ pub fn par_map<T: Sync, R: Send>(items: &[T], workers: usize, f: impl Fn(&T) -> 
 }
 
 pub fn run(ctx: &Ctx, rep: &mut Report, replay: Option<&serde_json::Value>) {
-    rep.rule("exhaustive product limit {disabled, 1, 1000, BIG} x size {L-1, L, L+1, 2L, 0} (disabled: 0, 1, 1000, 1001, BIG+1), BIG = 20 000 000 in the thorough tier and a 2 000 000 stand-in in the quick tier (time), x carrier {https TA via Run::load_ta, object in RRDP snapshot, object in RRDP delta with the snapshot withheld, real /usr/bin/rsync through a source-rewriting wrapper with routinator's own arguments} x {Content-Length, chunked}; oracle: the published bytes are obtained <=> size <= L or limit disabled; non-trivial = size within 1 of L, or limit disabled with Content-Length on the TA carrier; thorough adds random (limit, size) pairs; distinct by cell");
+    rep.rule("exhaustive product limit {disabled, 1, 1000, BIG} x size {L-1, L, L+1, 2L, 0} (disabled: 0, 1, 1000, 1001, BIG+1), BIG = 20 000 000 in the thorough tier and a 2 000 000 stand-in in the quick tier (time), x carrier {https TA via Run::load_ta, object in RRDP snapshot, object in RRDP delta with the snapshot withheld, real /usr/bin/rsync through a source-rewriting wrapper with routinator's own arguments} x {Content-Length, chunked}; plus 26 cells in which the limit (disabled / 1000) is read by routinator's own option parsers from the command line or from a config file, 'disabled' probed with an https TA of 20 000 001 bytes; oracle: the published bytes are obtained <=> size <= L or limit disabled; non-trivial = size within 1 of L, or limit disabled with Content-Length on the TA carrier; thorough adds random (limit, size) pairs; distinct by cell");
     rep.assume("rsync carrier: daemon-less local copy by the real rsync (source rewritten to a local path, --contimeout dropped because it is daemon-only); --max-size is routinator's own argument");
     if let Some(v) = replay {
         let t: Tagged<Case> = serde_json::from_value(v.clone()).expect("replay");
